@@ -44,6 +44,10 @@ type Candidate struct {
 	// Binary / Env: the executor that observed it when that is not this binary (the race-detector build)
 	Binary string   `json:"-"`
 	Env    []string `json:"-"`
+	// Trace: the trace specification that rejected the recorded events (module, config), so that a
+	// regenerated trace that is not byte-identical can be judged again instead of being compared
+	TraceModule string `json:"trace_module,omitempty"`
+	TraceCfg    string `json:"trace_cfg,omitempty"`
 }
 
 // Finding is one entry of known_findings.json.
@@ -262,6 +266,9 @@ func (r *Run) Finish() int {
 		path := filepath.Join(Root, "out", "replay", fmt.Sprintf("%s-%x.json", r.ID, h[:6]))
 		rep := map[string]any{"property": r.ID, "family": c.Family, "class": c.Class,
 			"sig": c.Sig, "detail": c.Detail, "case": c.Case, "seed": r.Seed, "tier": r.Tier}
+		if c.TraceModule != "" {
+			rep["trace_module"], rep["trace_cfg"] = c.TraceModule, c.TraceCfg
+		}
 		if withHist {
 			var hs []string
 			for _, h := range c.Hist {
